@@ -9,8 +9,41 @@ use std::collections::HashMap;
 ///
 /// The directory is part of the key: the same command line can be declared in several
 /// projects (e.g. inherited through `X.output`) and print something different in each.
+///
+/// The output is kept as the bytes the command printed (same stored form as the text it used to
+/// be): a lossy conversion to text would make outputs that differ only in bytes that are not
+/// valid UTF-8 compare equal.
 #[derive(Serialize, Deserialize, PartialEq)]
-pub struct ResourcesState(HashMap<(std::path::PathBuf, String), String>);
+pub struct ResourcesState(HashMap<(std::path::PathBuf, String), Stdout>);
+
+/// What a command printed. Written and read in one piece, like the text it replaces.
+#[derive(PartialEq)]
+struct Stdout(Vec<u8>);
+
+impl Serialize for Stdout {
+    fn serialize<S: serde::Serializer>(&self, serializer: S) -> Result<S::Ok, S::Error> {
+        serializer.serialize_bytes(&self.0)
+    }
+}
+
+impl<'de> Deserialize<'de> for Stdout {
+    fn deserialize<D: serde::Deserializer<'de>>(deserializer: D) -> Result<Self, D::Error> {
+        struct BytesVisitor;
+        impl serde::de::Visitor<'_> for BytesVisitor {
+            type Value = Stdout;
+            fn expecting(&self, formatter: &mut std::fmt::Formatter) -> std::fmt::Result {
+                formatter.write_str("the bytes printed by a command")
+            }
+            fn visit_bytes<E: serde::de::Error>(self, bytes: &[u8]) -> Result<Stdout, E> {
+                Ok(Stdout(bytes.to_vec()))
+            }
+            fn visit_byte_buf<E: serde::de::Error>(self, bytes: Vec<u8>) -> Result<Stdout, E> {
+                Ok(Stdout(bytes))
+            }
+        }
+        deserializer.deserialize_byte_buf(BytesVisitor)
+    }
+}
 
 fn key(resource: &CmdResource) -> (std::path::PathBuf, String) {
     (resource.dir.clone().into(), resource.cmd.to_string())
@@ -43,7 +76,7 @@ impl ResourcesState {
     }
 }
 
-async fn get_cmd_stdout(resource: &CmdResource) -> Result<String> {
+async fn get_cmd_stdout(resource: &CmdResource) -> Result<Stdout> {
     let mut command = run_script::build_command(&resource.cmd, &resource.dir);
     let output = command
         .output()
@@ -51,7 +84,7 @@ async fn get_cmd_stdout(resource: &CmdResource) -> Result<String> {
         .with_context(|| format!("Failed to run command {}", resource.cmd))?;
 
     if output.status.success() {
-        Ok(String::from_utf8_lossy(output.stdout.as_slice()).to_string())
+        Ok(Stdout(output.stdout))
     } else {
         Err(anyhow!(
             "Command {} returned {}",
